@@ -1,4 +1,5 @@
 import Audit.Tool
 import Uds.Props.C02
 import Uds.Props.C02Call
+import Uds.Props.C02Hist
 #audit Uds.Props.C02
